@@ -32,4 +32,20 @@ Proof.
            Comega32 Chalf2 other Hother).
 Qed.
 
+(* END-TO-END over the complex numbers with projective measurements (see
+   C08_end_to_end_statevector for the reading and the remaining hypotheses) *)
+Theorem C08_end_to_end_complex : forall env debug hw p p' s0 fuel pcf sf (psi : CSV),
+  transpile (cfg debug hw) p = Ok p' -> scratch_fresh_b (cfg debug hw) p = true -> trace s0 = [] ->
+  tracked_run env (cfg debug hw) p fuel 0 s0 = true ->
+  run env p fuel 0 s0 = (Halted, pcf, sf) ->
+  exists fuel' pcf' sf',
+    run env (erase p') fuel' 0 s0 = (Halted, pcf', sf') /\
+    agree (clobbered (cfg debug hw) p) (regs sf) (regs sf') /\ arrs sf = arrs sf' /\ script sf = script sf' /\
+    csv_eq (sv_run C C0 C1 Cplus Cmult Copp Comega Chalf debug hw (trace sf') psi)
+           (sv_run C C0 C1 Cplus Cmult Copp Comega Chalf debug hw (trace sf) psi).
+Proof.
+  exact (C08_end_to_end_statevector C C0 C1 Cplus Cmult Cminus Copp C_ring_theory Comega Chalf Comega32 Chalf2).
+Qed.
+
 Print Assumptions C08_transpile_simulates_complex.
+Print Assumptions C08_end_to_end_complex.
